@@ -270,6 +270,29 @@ fn variant() -> impl Strategy<Value = Variant> {
     prop_oneof![3 => Just(Variant::AsIs), 1 => Just(Variant::Spaces), 1 => Just(Variant::Upper), 1 => Just(Variant::Mixed), 1 => Just(Variant::Padded), 1 => Just(Variant::DoubleSep)]
 }
 
+pub fn addr_case() -> impl Strategy<Value = Case> {
+    (prop_oneof![2 => v4_any(), 1 => v6_classes()], variant()).prop_map(|(addr, variant)| Case { addr, variant })
+}
+pub fn bad_case() -> impl Strategy<Value = Bad> {
+    let any_addr = || prop_oneof![3 => v4_any(), 1 => v6_classes()];
+    prop_oneof![
+        3 => ".{0,60}".prop_map(Bad::Random),
+        2 => "[0-9a-f:.\\[\\]() -]{0,60}".prop_map(Bad::Random),
+        3 => (any_addr(), any::<u16>()).prop_map(|(a, n)| Bad::Truncated(a, n)),
+        1 => any_addr().prop_map(Bad::Words3),
+        1 => any_addr().prop_map(Bad::Words5),
+        1 => (v4_any(), any::<u32>()).prop_map(|(a, p)| Bad::PortOverflow(a, p)),
+        1 => any_addr().prop_map(Bad::OpenParen),
+        1 => (any_addr(), "[a-z -]{0,20}").prop_map(|(a, g)| Bad::Garbage(a, g)),
+    ]
+}
+pub fn check_one(c: &Case) -> Verdict {
+    check_addr(c)
+}
+pub fn check_bad(b: &Bad) -> Verdict {
+    run_bad(b)
+}
+
 pub fn run(run: &Run) {
     run.assume("when no word form is published for an address the four-word clauses are vacuous for it (classified, counted); every other clause still applies");
     run.assume("separator/case variants of a published word form must decode to the same address or be rejected");
